@@ -192,6 +192,7 @@ def noh2_vs_cog(model, res):
     keys = ['geometry', 'gamma', 'rho0', 'e0']
     ev1, f1 = field_nfs(model, 'exactpack.solvers.noh2.noh2:Noh2', keys)
     ev2, f2 = field_nfs(model, 'exactpack.solvers.noh2.noh2_cog:Noh2Cog', keys)
+    ev2.sums.update(ev1.sums)
     ci = model.get_class('exactpack.solvers.noh2.noh2_cog:Noh2Cog')
     for name in ('density', 'velocity', 'pressure', 'specific_internal_energy'):
         res.obligations += 1
@@ -204,7 +205,8 @@ def noh2_vs_cog(model, res):
         kb = b.key() if b is not NAN else 'NAN'
         # the Cog1 form has an extra t<=0 NaN branch in tau = 1 - t; compare the regular pieces
         pieces = [l.key() for c, l in leaves(b) if l is not NAN]
-        if ka == kb or (pieces and all(p == ka for p in pieces)):
+        regular = [l for c, l in leaves(b) if l is not NAN]
+        if ka == kb or (regular and all(ev2.equal(l, a) for l in regular)):
             res.discharged += 1
             res.sample({'rule': 'C07.noh2cog', 'field': name, 'normal_form': ka[:140]}, limit=30)
         else:
@@ -284,11 +286,21 @@ def run(model, tier):
         'define no _run. R7.3: the normal forms of density, velocity, pressure and energy of Noh2._run equal those '
         'of Noh2Cog._run (Cog1 with b=0, Gamma=1, temp0=e0(gamma-1)/Gamma, t->1-t, velocity negated). R7.4: the burn '
         'time returned by Kenamond1-3 is the same value for geometry 2 and 3 and does not depend on `geometry`. '
-        'IGEOS vs GenEOS, Noh vs Cog19 vs black-box Noh and rod BC3 vs mirrored BC4 are numeric and not decided.')
+        'R7.5: every wave-speed / star-density / fan helper call of the two Riemann drivers takes its (p, rho, u, gamma) '
+        'from one side (the structural part of IGEOS = GenEOS). The numeric agreement IGEOS vs GenEOS, Noh vs Cog19 vs '
+        'black-box Noh and rod BC3 vs mirrored BC4 is not decided.')
     res.rule_text = 'instance = one wrapper class / one field pair / one burn-time solver'
     res.trusted_base = ['CPython ast', 'NF engine']
     geometry_wrappers(model, res)
     sandwiches(model, res)
     noh2_vs_cog(model, res)
     burn_2d_3d(model, res)
+    # R7.5 the ideal-gas and the general-EOS Riemann drivers build every one-sided wave (speed, star
+    # density, fan profile) from ONE side's state: the by-construction part of their agreement
+    from .c09 import side_consistency
+    side_consistency(model, res, prop=PROP, rule='C07.side-consistency',
+                     callees={'shock_velocity', 'shock_speed', 'rho_star_shock', 'rho_star_rarefaction',
+                              'rho_p_u_rarefaction', 'star_velocity', 'shock', 'rarefaction'}, min_calls=6,
+                     why="one solver computes this wave with the other gas's data while the sibling solver uses the matching "
+                         "side, so the ideal-gas and general-EOS routes disagree whenever the two states differ in that component")
     return res
